@@ -9,7 +9,7 @@
    at the end. *)
 From Coq Require Import List Arith NArith Bool.
 From Discv5V Require Import Generated.Params Model.KBucket Model.Nodes Model.Serve Model.Admission
-  Proofs.Nodes Proofs.KBMembers Proofs.Serve Proofs.KBucketTable Proofs.ServiceInv.
+  Proofs.Nodes Proofs.KBMembers Proofs.Serve Proofs.KBucketTable Proofs.ServiceInv Proofs.NodesGap.
 Import ListNotations.
 Local Open Scope N_scope.
 
@@ -101,6 +101,48 @@ Theorem C11_completed_ignores :
   Forall (fun o => o = SONodes PIgnored \/ o = SOFail FIgnored) (run_pkts fx maxn None ps).
 Proof. exact completed_ignores. Qed.
 Print Assumptions C11_completed_ignores.
+
+(* Acceptance over the packets of one answer (Proofs/NodesGap.v).  C11_kept_exact is about one
+   packet; the packets of a request are collected in active_nodes_responses and handed to
+   discovered() when the request completes (PDone) or, after a failure, as a partial result
+   (FPartial).  Whatever is handed on - for every split of the answer into packets, every claimed
+   total, duplicates and failures in between - is a record of one of the packets of this request
+   whose log2 distance from the responder was requested: *)
+Theorem C11_handed_on_only_requested :
+  forall fx maxn peer ds, fix_d4 fx = true -> fix_enr1 fx = true ->
+  forall ps o l,
+  In o (run_pkts fx maxn (Some {| ar_peer := peer; ar_ds := ds; ar_user := false; ar_partial := None |}) ps) ->
+  handed_on o = Some l ->
+  forall r, In r l -> on_distance peer ds r = true /\ In r (pkt_records ps).
+Proof. exact handed_on_only_requested. Qed.
+Print Assumptions C11_handed_on_only_requested.
+
+(* ... and exactly those: while the packets [pre] are being stored (every one answered "stored"),
+   the packet that completes the request hands on the records at requested distances of ALL packets
+   received, in order of arrival - or, if it claims a total <= 1, of itself only (the code drops
+   what was collected: "all previous nodes will be ignored"). *)
+Theorem C11_handed_on_exact :
+  forall fx maxn peer ds, fix_d4 fx = true -> fix_enr1 fx = true ->
+  forall pre total nodes b l,
+  forallb is_stored (run_pkts fx maxn (fresh peer ds) (map nodes_of pre)) = true ->
+  snd (on_pkt fx maxn (final_state fx maxn (fresh peer ds) (map nodes_of pre)) (PktNodes total nodes))
+    = SONodes (PDone b l) ->
+  l = (if 1 <? total then flat_map (fun p => filter (on_distance peer ds) (snd p)) pre else [])
+      ++ filter (on_distance peer ds) nodes.
+Proof. exact completion_exact. Qed.
+Print Assumptions C11_handed_on_exact.
+
+(* the hypotheses are satisfiable: an answer in three packets claiming a total of 3, the second
+   one carrying an off-distance record; the third packet completes the request and hands on the
+   four on-distance records *)
+Example C11_handed_on_example :
+  let mk := fun id => {| e_vid := id; e_id := id; e_seq := 1; e_udp4 := None; e_udp6 := None; e_sub := None; e_size := 100 |} in
+  let pre := [(3, [mk 6; mk 7]); (3, [mk 4; mk 12])] in
+  forallb is_stored (run_pkts repaired 16 (fresh 5 [2; 1]) (map nodes_of pre)) = true /\
+  snd (on_pkt repaired 16 (final_state repaired 16 (fresh 5 [2; 1]) (map nodes_of pre)) (PktNodes 3 [mk 7]))
+    = SONodes (PDone false [mk 6; mk 7; mk 4; mk 7]).
+Proof. cbv zeta. split; vm_compute; reflexivity. Qed.
+Print Assumptions C11_handed_on_example.
 
 (* findnode_log2distance for 256-bit ids and at most 127 distances: no panic, terminates (the
    model's fuel suffices), None exactly for target = peer, otherwise [size] distinct distances
